@@ -294,7 +294,7 @@ func TestC04(t *testing.T) {
 		ID:   "C04",
 		Rule: "grammars: 50% mutated ambiguous expression seeds (binary/unary/ternary/postfix operators, dangling else, juxtaposition), 50% C01 generator; 1..4 %left/%right/%nonassoc groups over distinct terminals (some operators left undeclared), %prec on 25% of the rules; built as lalr.Grammar. Reference: LALR(1) automaton by canonical LR(1)+merge, each shift/reduce cell decided by the documented rule (rule precedence = %prec terminal else last terminal; higher group wins; equal: left reduce, right shift, nonassoc error; undeclared side or eoi lookahead => conflict, default shift; reduce/reduce => conflict, earlier rule). Cells with one shift and one reduction and reduction-only cells are compared exactly, cells with a shift and several reductions by a validity predicate (shift; the %nonassoc error if some rule ties with a nonassoc lookahead; a reduction only if precedence makes that rule win against the shift); SR/RR and the %expect error are compared when no such mixed cell exists. Non-trivial: at least one cell decided by precedence; distinct by grammar JSON.",
 		Assume: []string{"a terminal listed in two precedence groups is outside the domain (excluded, counted)", "the order in which several reductions are compared with a shift is not fixed by the statement: validity predicate only"},
-		Quick: 40000, Thorough: 400000,
+		Quick: 40000, Thorough: 2400000,
 		Gen:   c04Gen,
 		Check: c04Check,
 	}
